@@ -40,6 +40,9 @@ func genRun(r *gen.Rand, o *gen.Out, kind string) (runCfg, []string) {
 		faults = r.Chance(1, 4)
 	}
 	cfg.timeouts = faults
+	// half of the runs on a store without write-conflict detection (blind commits, last one wins)
+	cfg.blind = r.Chance(1, 2)
+	o.Count(fmt.Sprintf("blindStore=%v", cfg.blind))
 	o.Count(fmt.Sprintf("bundleThr=%d", min(cfg.bundleThr, 7)))
 	o.Count(fmt.Sprintf("faults=%v", faults))
 	var n int
@@ -68,7 +71,11 @@ func genRun(r *gen.Rand, o *gen.Out, kind string) (runCfg, []string) {
 		case 0:
 			add(fmt.Sprintf("a%d", r.Pick(6, 3, 1)+1))
 		case 1:
-			add("f")
+			if r.Chance(1, 3) {
+				add("fc")
+			} else {
+				add("f")
+			}
 		case 2:
 			add("k")
 		case 3:
@@ -120,12 +127,39 @@ func genRun(r *gen.Rand, o *gen.Out, kind string) (runCfg, []string) {
 			add("q")
 		}
 	}
-	stop := kind == "stop" || r.Chance(1, 3)
+	// overlapping-flush shape: a commit is held, a later ack arrives, and a second flush is requested with
+	// a CANCELLED context (Flush, or a force-stop Teardown): the generations must still be serialised —
+	// if they overlap, the older snapshot commits last and (on a blind store) overwrites the newer position
+	tcStop := false
+	if faults && r.Chance(1, 4) {
+		o.Count("shape=overlap-cancelled-ctx")
+		add("q")
+		add("h")
+		add(fmt.Sprintf("a%d", r.Range(1, 2)))
+		add("f")
+		add("q")
+		for i := r.Range(1, 2); i > 0; i-- {
+			add(fmt.Sprintf("a%d", r.Range(1, 2)))
+		}
+		if r.Chance(1, 2) {
+			add("fc")
+			add("q")
+			add("r")
+			add("q")
+		} else {
+			tcStop = true
+		}
+	}
+	stop := kind == "stop" || tcStop || r.Chance(1, 3)
 	if stop {
 		if r.Chance(1, 2) && kind != "stop" {
 			add("q")
 		}
-		add("T")
+		if tcStop || (faults && r.Chance(1, 4)) {
+			add("Tc")
+		} else {
+			add("T")
+		}
 		if !faults || r.Chance(1, 2) {
 			add("W")
 		}
